@@ -153,4 +153,31 @@ def decodeN (skip : List UInt8 → Option Nat) : Nat → SD → List DRes × SD
                 let (rs, s'') := decodeN skip n s'
                 (r :: rs, s'')
 
+/-! ### positions reported by the Go glue (patches/C07-error-position-clamp.diff)
+
+The native scanners hand back a cursor that may lie a few bytes past the end of the source (or at -1) when the
+input ends early; `raw` below is that cursor, an ARBITRARY integer as far as the model is concerned.  The
+wrappers are the places where an error value is built from it.  (Hand transliteration; the tie to the tree is
+the correspondence verdict `pos-outside-input`, which demands the conclusion of `error_pos_in_input` from every
+error the real code returns.) -/
+
+/-- `errors.ClampPos` / ast `clampPos`: `if pos > size {return size}; if pos < 0 {return 0}; return pos` -/
+def clampPos (pos size : Int) : Int :=
+  if pos > size then size else if pos < 0 then 0 else pos
+
+/-- internal/decoder/errors `error_wrap_heap(src, pos, code)`: `Pos: ClampPos(pos, len(src))` (JIT decoder, `ErrorWrap`) -/
+def errorWrapPos (size raw : Int) : Int := clampPos raw size
+
+/-- internal/decoder/api `Decoder.CheckTrailings`: `Pos: errors.ClampPos(pos, len(buf))`, `pos` = decoder cursor -/
+def checkTrailingsPos (size raw : Int) : Int := clampPos raw size
+
+/-- internal/decoder/optdec `fix_error(json, pos, err)`: `Pos: errors.ClampPos(int(e.Pos)+pos, len(json))` -/
+def optdecFixErrorPos (size base ePos : Int) : Int := clampPos (ePos + base) size
+
+/-- ast `(*Parser).syntaxError` and `ExportError`: `Pos: clampPos(self.p, len(self.s))` -/
+def astSyntaxErrorPos (size raw : Int) : Int := clampPos raw size
+
+/-- internal/decoder/api `Skip`: on a negative return code the end position is `errors.ClampPos(p, len(data))` -/
+def skipErrorEnd (size raw : Int) : Int := clampPos raw size
+
 end SonicSpec.Robust
